@@ -14,6 +14,8 @@ RULE = ("random rose trees 1-12 leaves (30 in thorough; unary nodes/chains incl.
         "API variants (prune_taxa, prune_taxa_with_labels, retain_taxa, retain_taxa_with_labels, filter_leaf_nodes, "
         "prune_leaves_without_taxa, extract_tree_with_taxa(_labels), extract_tree_without_taxa(_labels), extract_tree) run on the same "
         "input; plus filter_leaf_nodes / extract_tree with arbitrary node-id predicates (recursive on/off, leaf/internal filter flags), "
+        "HISTORIES of 2-3 operations on live objects (extract from an extract, extract after an in-place prune, custom or no reference "
+        "attribute: each new node must refer to its node in the tree it was extracted from, no earlier tree may change); "
         "the four by-label entry points on namespaces where several taxa match one label (equal labels on distinct Taxon objects, labels "
         "differing only in case, case-sensitive and case-insensitive namespaces, labels given in another case or absent); "
         "prune_subtree at every kind of node, Node.extract_subtree started at any node, prune_taxa with the leaf/internal flags on trees with "
@@ -32,8 +34,8 @@ MODELLED_NOT_VERIFIED = [
     "taxa they accept; update_bipartitions=True is exercised on all three rooting states for prune_taxa(_with_labels on unique labels), "
     "retain_taxa, filter_leaf_nodes and prune_subtree (unrooted: the oracle expects the induced subtree with its basal bifurcation "
     "collapsed, checks path lengths, leafset and split bitmasks from scratch); the multi-match by-label cases and "
-    "prune_leaves_without_taxa use it on rooted trees only; prune_taxa with is_apply_filter_to_leaf_nodes=False or taxa on internal "
-    "nodes has no independent specification (model correspondence and well-formedness only)",
+    "prune_leaves_without_taxa now too (bylabelupd / upd … filter hastaxon); prune_taxa with taxa on internal nodes is judged against an "
+    "independent two-phase description for the flag settings (1,1), (1,0), (0,0); (0,1) has model correspondence and well-formedness only",
 ]
 EXPLANATION = ("Theorems over all trees/predicates about the definitions drv_c08 runs. Mechanism = specification: prune_eq_restrict, "
                "prune_flags_eq_spec (only the loop half has a specification; the strike pass stands for itself) / prune_internal_flag_eq_restrict, filter_eq_restrict, filter_eq_restrictA / "
@@ -49,7 +51,12 @@ EXPLANATION = ("Theorems over all trees/predicates about the definitions drv_c08
                "restrict_pathlen_exec, restrict_pathlen_parsed (no side condition: parsed_lengths_wf, restrict_lengths_wf), alive_spec, "
                "nosuppress_nodes, nosuppress_edges, nosuppress_spec, suppress_no_unary, removed_spec, single_survivor, restrictA_eq_restrict, "
                "exSpec_without_internal_filter. Hypotheses where stated: taxa on leaves only, taxon-driven filters, distinct node ids. "
-               "Harness only: source immutability, node/edge labels, update_bipartitions on unrooted trees.")
+               "Last round: parseTree_ids_nodup / checked_guard_never_fires / extract_flags_parsed (distinct ids derived for driver inputs via "
+               "the C15 analysis of buildTree), allIn_spec / strike_default_spec / strike_eq_strikeSpec / prune_flags_full_spec (independent "
+               "description of prune_taxa's first pass on trees with internal taxa for three of the four flag settings), labels_upd_eq, "
+               "plwt_upd_eq (by label and prune_leaves_without_taxa with update_bipartitions, any rooting). "
+               "Harness only: source immutability across histories of operations, node/edge labels, prune_taxa with leaf flag off + internal "
+               "flag on (no closed description).")
 
 
 ROOT = {True: "R", False: "U", None: "N"}
@@ -201,7 +208,7 @@ def collapse_nest(t):
 def sort_nest(t):
     if t is None:
         return None
-    return (t[0], t[1], t[2], [sort_nest(c) for c in sorted(t[3], key=lambda c: c[0])])
+    return (t[0], t[1], t[2], [sort_nest(c) for c in sorted(t[3], key=lambda c: (c[0] is None, c[0] or 0))])
 
 
 def render_nest(t):
@@ -424,6 +431,13 @@ def judge(ctx, case, variant, src, surv, out, expect_removed=None):
     probs = tu.arborescence_problems(res)
     if probs:
         return fail("structure", "%s: result is not a well-formed tree: %s" % (variant, probs))
+    if out.get("source") is not None:
+        srcn = set(id(n) for n in tu.walk(out["source"].seed_node))
+        a = out.get("attr", "extraction_source")
+        for nd in tu.walk(res.seed_node):
+            es = getattr(nd, a, None)
+            if es is None or id(es) not in srcn:
+                return fail("extraction-source", "%s: the %s reference of a new node is not a node of the tree it was extracted from" % (variant, a))
     if sort_nest(got) == sort_nest(want) and got != want:
         return fail("child-order", "%s: the children of a node come in another order than in the source: result %s, induced subtree %s" % (
             variant, render_nest(got), render_nest(want)))
@@ -450,9 +464,10 @@ def judge(ctx, case, variant, src, surv, out, expect_removed=None):
             return fail("source-mutated", "%s returned the source tree itself" % variant)
         srcnodes = set(id(n) for n in tu.walk(s.seed_node))
         for nd in tu.walk(res.seed_node):
-            es = getattr(nd, "extraction_source", None)
+            es = getattr(nd, out.get("attr", "extraction_source"), None)
             if es is None or id(es) not in srcnodes:
-                return fail("extraction-source", "%s: a new node has no extraction_source in the source tree" % variant)
+                return fail("extraction-source", "%s: the %s reference of a new node is not a node of the tree it was extracted from" % (
+                    variant, out.get("attr", "extraction_source")))
             if id(nd) in srcnodes:
                 return fail("source-mutated", "%s: the extracted tree shares a node object with the source" % variant)
             if es.taxon is not nd.taxon or es.label != nd.label or es.edge.label != nd.edge.label:
@@ -526,6 +541,10 @@ def taxon_group(ctx, dendropy, case, pending, variants=None):
             inpl_upd = case["upd"] and out.get("source") is None
             if not (inpl_upd and case["rooted"] != "R"):
                 pending.append((out["line"], dict(case, variant=variant), impl_text(out)))     # the plain op knows no re-encoding
+            if inpl_upd and out["line"].split()[0] == "plwt":
+                w = out["line"].split()
+                pending.append(("upd %s %s filter hastaxon %s" % (case["rooted"], w[1], " ".join(w[3:])),
+                                dict(case, variant=variant + "+update_bipartitions"), upd_text(out)))
             if inpl_upd and out["line"].split()[0] in ("prune", "retain", "filter"):
                 w = out["line"].split()
                 rest = w[4:] if w[0] == "prune" else (w[3:] if w[0] == "filter" else w[2:])
@@ -788,7 +807,12 @@ def labels_case(ctx, dendropy, case, pending, variants=None):
                     given, "case-sensitive" if case["case_sensitive"] else "case-insensitive", case["labels"],
                     "are not named" if removing else "are named", f["what"]))[:900]
         else:
-            pending.append((out["line"], dict(case, variant=variant), impl_text(out)))
+            if inplace and upd:
+                w = out["line"].split()
+                pending.append(("bylabelupd %s %s %s" % (w[1], case["rooted"], " ".join(w[2:])),
+                                dict(case, variant=variant + "+update_bipartitions"), upd_text(out)))
+            else:
+                pending.append((out["line"], dict(case, variant=variant), impl_text(out)))
 
 
 def gen_labels_case(dendropy, rng, max_leaves):
@@ -819,30 +843,207 @@ def gen_labels_case(dendropy, rng, max_leaves):
     if rng.random() < 0.15:
         given.append("absent")
     rng.shuffle(given)
-    case.update(op="labels", labels=labels, given=given, case_sensitive=cs, sup=rng.random() < 0.6, upd=rng.random() < 0.2)
-    if case["upd"]:
+    case.update(op="labels", labels=labels, given=given, case_sensitive=cs, sup=rng.random() < 0.6, upd=rng.random() < 0.25)
+    if case["upd"] and rng.random() < 0.35:
         case["rooted"] = "R"
     return case
 
 
+HISTORY_EXTRACT = ["extract_tree_with_taxa", "extract_tree_without_taxa", "extract_tree", "extract_tree_with_taxa_labels",
+                   "extract_tree_without_taxa_labels", "Node.extract_subtree"]
+HISTORY_INPLACE = ["prune_taxa", "retain_taxa", "filter_leaf_nodes"]
+
+
+def history_case(ctx, dendropy, case, pending):
+    """a HISTORY of operations on live objects: each step prunes in place or extracts from the tree the previous step left or
+    returned (so sources may themselves be extracts carrying reference attributes, or trees pruned earlier).  After every step the
+    result must be the subtree induced on the CURRENT source, each new node must refer to its node in the tree it was extracted
+    from (not to anything earlier), and no earlier tree of the history may have changed."""
+    tree, _ = make_tree(dendropy, case)
+    earlier = []
+    for k, step in enumerate(case["steps"]):
+        toks, ids = tu.encode_tree(tree, with_labels=False)       # snapshot of the current source by a plain walk
+        src = Src(toks)
+        K = set(step["K"])
+        kept = [i for i in src.leaves if src.tax[i] in K]
+        if not kept:
+            return
+        surv = survivors_induced(src, kept)
+        variant, sup, attr = step["variant"], step["sup"], step.get("attr", "extraction_source")
+        tns = tree.taxon_namespace
+        by_bit = {tns.accession_index(t): t for t in tns}
+        leafbits = [src.tax[i] for i in src.leaves]
+        P = [b for b in leafbits if b not in K]
+        Kl = sorted(K)
+        ttoks = " ".join(toks)
+        scase = dict(case, sup=sup, upd=False, step=k, clause_checks=True)
+        ctx.case(["history", case["tree"], case["steps"][:k + 1]], k >= 1 and 1 < len(kept), kind="history-%d-%s" % (k, variant), sample=case)
+        out = {"removed": None, "source": None, "ids": ids, "idfn": ids.of, "tree": tree, "tree_level": variant != "Node.extract_subtree"}
+        fp_all = [(t, fingerprint(t)) for t in earlier]
+        try:
+            if variant in HISTORY_INPLACE:
+                if variant == "prune_taxa":
+                    tree.prune_taxa([by_bit[b] for b in P], suppress_unifurcations=sup)
+                    out["line"] = "prune %d 1 0 %s %s" % (sup, nums(P), ttoks)
+                elif variant == "retain_taxa":
+                    tree.retain_taxa([by_bit[b] for b in Kl], suppress_unifurcations=sup)
+                    out["line"] = "retain %d %s %s %s" % (sup, nums(case["ns"]["bits"]), nums(Kl), ttoks)
+                else:
+                    kt = set(by_bit[b] for b in Kl)
+                    out["removed"] = tree.filter_leaf_nodes(lambda nd: nd.taxon in kt, suppress_unifurcations=sup)
+                    out["line"] = "filter %d 1 keep %s %s" % (sup, nums(Kl), ttoks)
+                res = tree
+            else:
+                out["source"] = tree
+                out["fp_before"] = fingerprint(tree)
+                kw = dict(suppress_unifurcations=sup, extraction_source_reference_attr_name=attr)
+                if variant == "extract_tree_with_taxa":
+                    res = tree.extract_tree_with_taxa([by_bit[b] for b in Kl], **kw)
+                    out["line"] = "extract %d 1 0 taxa %s %s" % (sup, nums(Kl), ttoks)
+                elif variant == "extract_tree_without_taxa":
+                    res = tree.extract_tree_without_taxa([by_bit[b] for b in P], **kw)
+                    out["line"] = "extract %d 1 0 nottaxa %s %s" % (sup, nums(P), ttoks)
+                elif variant == "extract_tree_with_taxa_labels":
+                    res = tree.extract_tree_with_taxa_labels(["t%d" % b for b in Kl], **kw)
+                    out["line"] = "extract %d 1 0 taxa %s %s" % (sup, nums(Kl), ttoks)
+                elif variant == "extract_tree_without_taxa_labels":
+                    res = tree.extract_tree_without_taxa_labels(["t%d" % b for b in P], **kw)
+                    out["line"] = "extract %d 1 0 nottaxa %s %s" % (sup, nums(P), ttoks)
+                else:
+                    kt = set(by_bit[b] for b in Kl)
+                    fn = lambda nd: nd.taxon is None or nd.taxon in kt
+                    if variant == "extract_tree":
+                        res = tree.extract_tree(node_filter_fn=fn, **kw)
+                    else:
+                        nd = tree.seed_node.extract_subtree(node_filter_fn=fn, **kw)
+                        res = dendropy.Tree(taxon_namespace=tns, seed_node=nd)
+                        res.is_rooted = tree.is_rooted
+                    out["line"] = "extract %d 1 0 taxa %s %s" % (sup, nums(Kl), ttoks)
+                out["tree"] = res
+                out["attr"] = attr
+                if attr is None:
+                    out["source"] = None      # no reference requested: identity cannot be observed, structure only
+                    out["idfn"] = lambda nd: None
+                else:
+                    out["idfn"] = (lambda ids_, a: (lambda nd: ids_.of(getattr(nd, a, None))))(ids, attr)
+        except RecursionError:
+            raise
+        except Exception as e:
+            ctx.fail("exception", "history step %d: %s raised %s: %s" % (k, variant, type(e).__name__, str(e)[:200]), dict(case, variant=variant))
+            return
+        for t, fp in fp_all:
+            if fingerprint(t) != fp:
+                ctx.fail("source-mutated", "history step %d (%s) changed a tree from an earlier step of the history" % (k, variant),
+                         dict(case, variant=variant))
+                return
+        if variant not in HISTORY_INPLACE and attr is None:
+            # structure without node identity
+            want = build_from_survivors(src, surv, sup)
+            strip = lambda t: (None, t[1], t[2], [strip(c) for c in t[3]])
+            got = nest_of(res.seed_node, lambda nd: None, tns)
+            if strip(want) != got:
+                ctx.fail("induced-subtree", "history step %d: %s(reference attribute None): result %s, induced subtree %s" % (
+                    k, variant, render_nest(got), render_nest(strip(want))), dict(case, variant=variant))
+                return
+            if fingerprint(tree) != out["fp_before"]:
+                ctx.fail("source-mutated", "history step %d: %s changed its source tree" % (k, variant), dict(case, variant=variant))
+                return
+            for nd in tu.walk(res.seed_node):
+                if hasattr(nd, "extraction_source"):
+                    ctx.fail("extraction-source", "history step %d: %s set extraction_source although no reference was requested" % (k, variant),
+                             dict(case, variant=variant))
+                    return
+        else:
+            if judge(ctx, scase, "history step %d: %s" % (k, variant), src, surv, out):
+                return
+            pending.append((out["line"], dict(case, variant="history-%d" % k), impl_text(out)))
+        if variant not in HISTORY_INPLACE:
+            earlier.append(tree)
+            tree = res
+
+
+def gen_history_case(dendropy, rng, max_leaves):
+    case = gen_input(dendropy, rng, max(3, max_leaves))
+    src = Src(case["tree"])
+    bits = [src.tax[i] for i in src.leaves]
+    steps = []
+    cur = list(bits)
+    for k in range(rng.choice([2, 2, 3])):
+        if len(cur) > 1 and rng.random() < 0.85:
+            p = rng.choice([0.5, 0.7, 0.9])
+            nxt = [b for b in cur if rng.random() < p] or [rng.choice(cur)]
+        else:
+            nxt = list(cur)
+        r = rng.random()
+        variant = rng.choice(HISTORY_EXTRACT) if r < 0.7 else rng.choice(HISTORY_INPLACE)
+        a = rng.random()
+        attr = "extraction_source" if a < 0.75 else ("other_ref" if a < 0.9 else None)
+        steps.append({"variant": variant, "K": sorted(nxt), "sup": rng.random() < 0.65, "attr": attr})
+        cur = nxt
+    case.update(op="history", steps=steps, sup=True, upd=False)
+    return case
+
+
+def strike_survivors(src, P, fl, fi):
+    """first pass of prune_taxa described without the pass: which nodes are still there.  None = no closed description"""
+    P = set(P)
+    inp = [src.tax[v] is not None and src.tax[v] in P for v in range(src.n)]
+    if fl and fi:
+        # every node that carries a pruned taxon goes, with everything below it
+        gone = set()
+        for v in range(src.n):              # pre-order numbering: parents first
+            if inp[v] or (src.par[v] >= 0 and src.par[v] in gone):
+                gone.add(v)
+        return set(range(src.n)) - gone
+    if fl and not fi:
+        # a node goes exactly when all of its subtree, itself included, carries pruned taxa
+        return set(v for v in range(src.n) if not all(inp[w] for w in src.below(v)))
+    if not fl and not fi:
+        return set(range(src.n))
+    return None
+
+
+def drop_taxonless(src, s1):
+    """second pass: taxon-less leaves go until none is left (a node all of whose children went is a leaf)"""
+    surv = set()
+    for v in src.postorder():
+        if v not in s1:
+            continue
+        if any(c in surv for c in src.kids[v]) or src.tax[v] is not None:
+            surv.add(v)
+    return surv
+
+
 def flags_case(ctx, dendropy, case, pending):
-    """prune_taxa with is_apply_filter_to_leaf_nodes / _internal_nodes on trees that carry taxa on internal nodes.
-    The statement speaks about leaves; here only the correspondence with the model is checked (plus well-formedness)."""
+    """prune_taxa with is_apply_filter_to_leaf_nodes / _internal_nodes on trees that carry taxa on internal nodes.  For the
+    flag settings with a closed description (both on, default, both off) the result is judged against that description
+    followed by "taxon-less leaves go"; leaf flag off + internal flag on: correspondence with the model and well-formedness."""
     P = case["P"]
-    line = "prune %d %d %d %s %s" % (case["sup"], case["fl"], case["fi"], nums(P), " ".join(case["tree"]))
-    ctx.case(["flags", case["tree"], P, case["fl"], case["fi"], case["sup"]], True, kind="prune_taxa-flags")
+    src = Src(case["tree"])
+    fl, fi = case["fl"], case["fi"]
+    line = "prune %d %d %d %s %s" % (case["sup"], fl, fi, nums(P), " ".join(case["tree"]))
+    ctx.case(["flags", case["tree"], P, fl, fi, case["sup"]], True, kind="prune_taxa-flags")
+    s1 = strike_survivors(src, P, fl, fi)
+    want = None
+    if s1 is not None:
+        pending.append(("strikespec %d %d %s %s" % (fl, fi, nums(P), " ".join(case["tree"])), dict(case, variant="strikespec"),
+                        render_nest(build_from_survivors(src, s1, False)) if src.root in s1 else "none"))
+        s2 = drop_taxonless(src, s1) if src.root in s1 else set()
+        want = build_from_survivors(src, s2, case["sup"]) if src.root in s2 else None
     tree, ids = make_tree(dendropy, case)
     tns = tree.taxon_namespace
     by_bit = {tns.accession_index(t): t for t in tns}
     try:
-        tree.prune_taxa([by_bit[b] for b in P], suppress_unifurcations=case["sup"], is_apply_filter_to_leaf_nodes=case["fl"],
-                        is_apply_filter_to_internal_nodes=case["fi"])
+        tree.prune_taxa([by_bit[b] for b in P], suppress_unifurcations=case["sup"], is_apply_filter_to_leaf_nodes=fl,
+                        is_apply_filter_to_internal_nodes=fi)
     except Exception as e:
-        # the seed itself would have to go, i.e. NO leaf survives: outside the quantifier of the statement.  The code has no
+        # the seed itself would have to go, i.e. nothing survives: outside the quantifier of the statement.  The code has no
         # deliberate refusal there today (AttributeError: 'NoneType' has no attribute 'remove_child'); that crash and a deliberate
         # library refusal are accepted and compared with the model's "err"; anything else is a crash on an in-domain input
         name = exc_name(e)
-        if name in ("AttributeError", "SeedNodeDeletion", "ValueError"):
+        if s1 is not None and want is not None:
+            ctx.fail("prune-flags", "prune_taxa(leaf flag %s, internal flag %s) raised %s although %s survives" % (fl, fi, name, render_nest(want)), case)
+        elif name in ("AttributeError", "SeedNodeDeletion", "ValueError"):
             pending.append((line, case, "err"))
         else:
             ctx.fail("exception", "prune_taxa(flags) raised %s: %s" % (name, str(e)[:200]), case)
@@ -851,7 +1052,13 @@ def flags_case(ctx, dendropy, case, pending):
     if probs:
         ctx.fail("structure", "prune_taxa: result is not a well-formed tree: %s" % probs, case)
         return
-    pending.append((line, case, render_nest(nest_of(tree.seed_node, ids.of, tns))))
+    got = nest_of(tree.seed_node, ids.of, tns)
+    if s1 is not None and got != want:
+        ctx.fail("prune-flags", "prune_taxa(leaf flag %s, internal flag %s, taxa on internal nodes): result %s; removing %s and then taxon-less "
+                 "leaves gives %s" % (fl, fi, render_nest(got), "every node carrying a pruned taxon with its subtree" if (fl and fi) else
+                                      ("the nodes whose whole subtree carries pruned taxa" if fl else "nothing"), render_nest(want)), case)
+        return
+    pending.append((line, case, render_nest(got)))
 
 
 # =================================================================== generators
@@ -1016,6 +1223,8 @@ def run_case(ctx, dendropy, case, pending, variants=None):
         extract_node_case(ctx, dendropy, case, pending)
     elif op == "labels":
         labels_case(ctx, dendropy, case, pending, variants)
+    elif op == "history":
+        history_case(ctx, dendropy, case, pending)
     else:
         raise ValueError("unknown op in case: %r" % (op,))
 
@@ -1052,7 +1261,9 @@ def run(ctx):
             break
         ml = max_leaves if rng.random() < 0.85 else 4
         r0 = rng.random()
-        if r0 < 0.12:
+        if r0 < 0.1:
+            case = gen_history_case(dendropy, rng, ml)
+        elif r0 < 0.2:
             case = gen_labels_case(dendropy, rng, ml)
         elif r0 < 0.6:
             case = gen_taxon_case(dendropy, rng, ml)
@@ -1122,6 +1333,7 @@ def replay(ctx, rec):
     case = dict(rec["replay"])
     case.pop("only_case_folded_match", None)
     case.pop("_collapsed", None)
+    case.pop("step", None)
     pending = []
     variant = case.pop("variant", None)
     case.pop("clause_checks", None)
